@@ -60,10 +60,10 @@ CHECKS = {
         "enumerated) and the root finder replaced by the bracket_root stub: every returned event had success, lies in the bracket within sqrt(eps)*|step| of the true root, crosses in a "
         "requested direction, list sorted along the integration direction and cut after the first terminal event; (B) the REAL event section of integrate with an events oracle "
         "constrained only by (A): every recorded event was reported, lies inside its step, its state is that step's interpolant at the event time, events are in integration order "
-        "and no crossing is recorded twice - also not a crossing on the boundary between two integrate(events=...) calls.", "DESIGN.md 3/C07-C09", "Root location itself is C14; distance to a root of the exact trajectory is outside."),
+        "and no crossing is recorded twice - also not a crossing on the boundary between two integrate(events=...) calls; (A) also on a REAL DenseOutput holding several real Hermite pieces inside the step (kinked trajectory, preceded by the piece of an earlier step); (B) also on the way BACK over times covered before (forward leg, then integrate(t0, events=...)): every step is examined on its own interpolant.", "DESIGN.md 3/C07-C09, 6.6", "Root location itself is C14; distance to a root of the exact trajectory is outside."),
     "C08": _entry("other",
         "(A) REAL handle_events with an exactly located, strictly interior crossing in a requested direction: the event IS returned for every scale 2^-20..2^20, direction of integration and "
-        "number of events unless an earlier terminal event cuts the list; (B) REAL integrate with the events oracle: every detector report that is not a repeat of the same event "
+        "number of events unless an earlier terminal event cuts the list, also on a multi-piece real DenseOutput; (B) REAL integrate with the events oracle: every detector report that is not a repeat of the same event "
         "within eps^0.7 is recorded - true_positive filter, duplicate filter (events never merged) and interpolant pruning with dense_output=False, both directions; (C) bit-precise end of the "
         "detector is handed the interpolant of the step under examination (three steps with dense_output=False); after a detector fault and a repeated integrate() every recorded step was examined; (C) bit-precise end of the "
         "chain: the QF_FP witnesses of C14's lemma (adjacent floats bracketing a steep time event, x in +-(0.5,2), +-(4,8), +-(64,128)) are given to the REAL handle_events + brentsrootvec in both directions: the event is reported.",
@@ -95,40 +95,40 @@ CHECKS = {
     "C13": _entry("other",
         "All operation sequences up to the length bound over {integrate, integrate(T), set dt/tol/method, set_kick_vars, integrate with an event, faulting integrate, reset} with symbolic "
         "arguments: integrate() at the target is a no-op; reset() restores (t0,y0), no events, empty dense output, dt0, nfev 0, status 0 and the next run (rows and dense pieces) is "
-        "term-identical to a fresh system's (histories with events re-run WITH the same event function: recorded events equal the fresh system's); caller's y0/constants untouched; split runs keep the rows before the split.", "DESIGN.md 3/C13",
+        "term-identical to a fresh system's (histories with events re-run WITH the same event function: recorded events equal the fresh system's, with and WITHOUT dense output, the detector reporting in the 1st/2nd/3rd examined step, the run before the reset on another step size); integrate(T) with T within the arrival tolerance (32 eps) of the current time changes nothing; caller's y0/constants untouched; an entry written into the constants of another system built without constants does not reach this one; split runs keep the rows before the split.", "DESIGN.md 3/C13, 6.6",
         "bit-for-bit is decided as term identity over R; adaptive 'within tolerance' not claimed."),
     "C17": _entry("other",
         "For every array length up to the bound, every strictly increasing real array and every real query (scalar and vector), z3 shows on every feasible path of the real "
         "search_bisection/search_bisection_vec that the returned index is the first element >= query (clipped) and that both agree; CubicHermiteInterp is exact (value and gradient) "
-        "on the general cubic with symbolic coefficients, interval of either orientation, symbolic evaluation point, scalar, vector and matrix-valued data (incl. leading dimension 4); integer-typed knots.", "DESIGN.md 3/C17",
+        "on the general cubic with symbolic coefficients, interval of either orientation, symbolic evaluation point (inside and outside the interval), scalar, vector and matrix-valued data (incl. leading dimension 4); integer-typed knots; the caller re-uses the arrays it passed in AND writes into the arrays the piece returned: all values are reproduced afterwards.", "DESIGN.md 3/C17",
         "Array lengths <= 6 (quick) / 7 (thorough); vector queries <= 2 / 3."),
     "C14": _entry("other",
         "For every feasible path of the real brentsroot and brentsrootvec (1-3 components) under the unwinding assumption |b-a| <= 2^k*tol, z3 shows for ALL real brackets (either order), "
         "tolerances in [4*eps64, 1e-3] (plus None and below-floor) and function parameters of the families linear s*(x-r) (s = +-1e-6..1e9 concrete and symbolic; root inside/outside/at an "
         "end) and jump (-u | +v): the returned point lies in the closed bracket or no success is claimed; a bracketed sign change is located to within tol and success is reported; "
         "a root exactly on a bracket end is found and reported; success implies |f| <= tol or a sign change within tol; no sign change and |f| > tol at both ends implies no success; the loop never reaches the iteration cap; vector and "
-        "scalar solver agree whenever f(a)f(b) < 0.  A bit-precise QF_FP lemma exhibits adjacent floats (x in +-(0.5,2), +-(4,8), +-(64,128)) bracketing a sign change with both residuals above tol and the real brentsroot AND brentsrootvec are run on it.",
+        "scalar solver agree whenever f(a)f(b) < 0; WIDE brackets of concrete width 2^K*tol (K up to 66 quick / 72 thorough, default tolerance, unit jump at a symbolic position inside a window of tol/8 at several places of the bracket) run the ~K halvings: located, certified, left by convergence.  A bit-precise QF_FP corner picks a linear function and a bracket whose end values are finite while their product overflows float16/float32 (inf/inf interpolants): the REAL solvers run on it in that dtype, both bracket orders.  A bit-precise QF_FP lemma exhibits adjacent floats (x in +-(0.5,2), +-(4,8), +-(64,128)) bracketing a sign change with both residuals above tol and the real brentsroot AND brentsrootvec are run on it.",
         "DESIGN.md 3/C14", "k = 4/3 halvings (quick), 8/7 (thorough); vector lengths 1..3; two-root quadratics thorough-only (may end inconclusive). Known findings: "
         "c14.absolute_residual_success (flat functions, literal reading), c14.vec_unbracketed_result."),
     "C16": _entry("other",
         "Real JacobianWrapper (adaptive and fixed Richardson depth, flat both ways, base order 2/4/5) on affine maps with symbolic A, f(y), y (shapes scalar, (2,)->(2,), (3,)->(2,), "
-        "(2,2)->(3,)) and polynomial maps of degree <= 4: entry [i...,j...] equals df_i/dy_j up to the rounding noise of the float64 stencil weights, shape (*shape f, *shape y); the "
+        "(2,2)->(3,), the latter also with the state stored column-major) and polynomial maps of degree <= 4: entry [i...,j...] equals df_i/dy_j up to the rounding noise of the float64 stencil weights, shape (*shape f, *shape y); the "
         "real DiffRHS.jac under every history of <= 3 (quick) / 4 (thorough) operations over {jac at fresh symbolic (t,y), hook, unhook, rhs.jac=, set_jac_base_order, copy.copy of the wrapper (as OdeSystem does), a request during which the rhs raises}: attached user "
         "Jacobians are called once with the requested (t,y) and returned unchanged, otherwise the finite-difference result is for the requested t and state; njev counts answered requests.",
         "DESIGN.md 3/C16", "Accuracy on non-polynomial functions is outside."),
     "C18": _entry("other",
         "The real solve_ivp with symbolic t_span, first_step, max_step, t_eval entries (unsorted, repeated, with/without end points), y0 of shape (2,) and (2,2), args, methods by name "
-        "and class, and in the same path the object API with the same settings: shapes, columns pair with times, first column y0, t_eval times exactly the requested ones along the "
-        "direction of integration with columns equal to the object API's states, args (tuples shorter than, and as long as, the rhs parameter list with defaults) bound positionally at every evaluation, no step above max_step, counters/status those of the system; t_eval together with dense_output=True.",
+        "and class, and in the same path the object API with the same settings: shapes, columns pair with times, first column y0, the k-th returned time is the k-th requested one in the order of integration (multiplicities kept, "
+        "either direction) with columns equal to the object API's states at the requested times, args (tuples shorter than, and as long as, the rhs parameter list with defaults) bound positionally at every evaluation, no step above max_step, counters/status those of the system; t_eval together with dense_output=True.",
         "DESIGN.md 3/C18", "Parity with scipy.integrate.solve_ivp is not applicable to this technique (independent compiled numerics)."),
     "C19": _entry("other",
         "On symbolic trajectories (forward, backward, continued, ctrl-adaptive): every integer index in [-len-2, len+2] has sequence semantics, iteration yields each row once in order, "
         "a lookup at an arbitrary real time returns a recorded sample nearest in time (dense: (q, sol(q))), a slice spanning the run returns the run; also for runs AGAINST the "
-        "direction of the constructor's span, and for non-dense runs that monitored an event function.", "DESIGN.md 3/C19"),
+        "direction of the constructor's span, for non-dense runs that monitored an event function, and after a step callback looked the trajectory up by time / sliced it at every step of the run (those lookups answer from the rows recorded so far); numpy integers (int64, int32, intp, uint8) are integer indices.", "DESIGN.md 3/C19"),
     "C20": _entry("other",
         "Independent counters inside the user rhs / Jacobian: on every feasible path of explicit, FSAL+rejection, splitting, implicit (user Jacobian and real finite-difference "
         "JacobianWrapper) runs nfev equals the completed user calls at every callback and at the end, also after faults and reset; callbacks in the given order, after the new row "
-        "is visible, once per recorded step; a dt assigned by a callback is the magnitude of the next attempted step; two systems built on ONE rhs callable and used alternately each count only their own calls / Jacobian requests; with events (oracle): callbacks once per outer step that recorded rows, each sees new rows, the last sees the final row.", "DESIGN.md 3/C20"),
+        "is visible, once per recorded step; a dt assigned by a callback is the magnitude of the next attempted step - also the first step of a continuation call after a short call (target nearer than the working step); two systems built on ONE rhs callable and used alternately each count only their own calls / Jacobian requests; with events (oracle): callbacks once per outer step that recorded rows, each sees new rows, the last sees the final row.", "DESIGN.md 3/C20"),
 }
 
 NOT_APPLICABLE = [
